@@ -200,3 +200,30 @@ def full_formulas(pc, goal):
     probe = z3.Solver()
     probe.add(*base)
     return base + global_axioms(probe.sexpr())
+
+
+def polish(pc, goal, timeout_ms=5000):
+    """try to find a counter-model that does not live in the rounding slack: all round() perturbations zero.
+    -> model or None"""
+    fs = full_formulas(pc, goal)
+    names = set()
+    stack = list(fs)
+    seen = set()
+    consts = []
+    while stack:
+        t = stack.pop()
+        if t.get_id() in seen:
+            continue
+        seen.add(t.get_id())
+        if z3.is_quantifier(t):
+            stack.append(t.body())
+            continue
+        if z3.is_const(t) and t.decl().kind() == z3.Z3_OP_UNINTERPRETED and t.decl().name().startswith('rerr!'):
+            consts.append(t)
+        stack.extend(t.children())
+    if not consts:
+        return None
+    r, s = _z3_check(fs + [c == 0 for c in consts], timeout_ms)
+    if r == z3.sat:
+        return s.model()
+    return None
